@@ -11,6 +11,7 @@ import (
 	"net/http"
 	"net/url"
 	"path"
+	"strings"
 
 	"github.com/friendsofgo/errors"
 	"github.com/pquerna/otp"
@@ -487,7 +488,10 @@ func (t *TOTP) validate(r *http.Request) (User, string, error) {
 		return user, t.Localizef(r.Context(), authboss.TxtSuccess), nil
 	}
 
-	input := totpCodeValues.GetCode()
+	// The otp library trims the passcode before it checks it, so the replay
+	// protection below has to look at the trimmed code as well: otherwise
+	// "123456 " is a fresh code to us and a valid one to the library.
+	input := strings.TrimSpace(totpCodeValues.GetCode())
 
 	if oneTime, ok := user.(UserOneTime); ok {
 		oldCode := oneTime.GetTOTPLastCode()
